@@ -29,7 +29,12 @@ RULE = ("family pm/k: random general setups (11 crystals × 5 PM types, non-coll
         "optimum or arbitrary idler, unequal waists 15–400 µm, elliptical pump, waist positions, poled/unpoled with every apodisation "
         "kind, a quarter phase-matched by the crate's own optimum calls, a quarter plane-wave) × 2 frequency pairs: integrand at 5 z, "
         "Simpson z-integral for several divs, normalisations, swap record; family pm/c06: asymmetric setups × 4 frequency pairs in the "
-        "pump-allowed region (setup vs exchanged twin: jsa, jsi), every other setup a 3×3 (5×5 thorough) grid for rates and singles")
+        "pump-allowed region (setup vs exchanged twin: jsa, jsi), every other setup a 3×3 (5×5 thorough) grid for rates and singles; "
+        "30 % of the c06 setups carry 'copied values' (idler polar angle bit-equal to the signal's on the mirror / same / other azimuth, "
+        "equal external angles, equal waists, exactly degenerate frequencies, equal / zero / mid-crystal waist positions, grating L/k; "
+        "half re-phase-matched by the single-parameter optimum calls), every 12th is a written-down config (round numbers, explicit "
+        "symmetric arms, SPDC::from_json); on these also the exact-centre and equal-frequency pairs and the pm_integrand K op for the "
+        "setup and its twin")
 RESIDUAL = ("floating-point rounding (measured: |jsa_S − jsa_swap| ≤ ~1e-10·|jsa|); non-vanishing of A1..A4, denom1, denom2 is a "
             "hypothesis of the theorems and checked by evaluation only; the singles integrand is not modelled")
 TRUSTED_EXTRA = ["tools/props/_pmtol.py: complex-aware comparison (|Δ| relative to the modulus / to the absolute quadrature sum)"]
@@ -38,7 +43,7 @@ CHECKER_MODULES = ["Spdc.Real.PM", "Spdc.Real.Jsa"]
 
 def families(tier, seed):
     if tier == "quick":
-        return [("pm", seed, 1500, ["k"]), ("pm", seed, 1500, ["c06"])]
+        return [("pm", seed, 1500, ["k"]), ("pm", seed, 1800, ["c06"])]
     return [("pm", seed, 4000, ["k"]), ("pm", seed + 1000, 4000, ["k"]), ("pm", seed, 3000, ["c06"])]
 
 
